@@ -928,6 +928,13 @@ pub fn c16_numeric(prop: &'static str, case: &ProgCase, lm: &LogicalMovie, bytes
             out.push(v(prop, "dimensions", "sample-entry", format!("visual sample entry says {:?}x{:?}, configured {}x{}", t.width, t.height, vcfg.width, vcfg.height)));
             return out;
         }
+        // the track header states the presentation size as unsigned 16.16
+        if let Some((tw, th)) = t.tkhd_tail {
+            if vcfg.width <= 0xffff && vcfg.height <= 0xffff && (tw as u64 != (vcfg.width as u64) << 16 || th as u64 != (vcfg.height as u64) << 16) {
+                out.push(v(prop, "dimensions", "tkhd", format!("tkhd states {}x{} (16.16: {:#x} / {:#x}), configured {}x{}", tw >> 16, th >> 16, tw, th, vcfg.width, vcfg.height)));
+                return out;
+            }
+        }
         // the length fields inside avcC / hvcC must tile the record exactly, whatever sets it carries
         {
             let kids = child_boxes(&t.stsd_entry, 78);
